@@ -83,22 +83,26 @@ def check(solver, *extra, use_cvc5=True):
             return v, None, "cvc5"
     else:
         return "unknown", None, "z3"
-    # last resort: the same query once more in a fresh z3 with a long budget (verdicts must not
-    # flip to undecided just because all cores are busy)
-    t0 = time.time()
-    s2 = z3.Solver()
-    s2.set("timeout", Z3_TIMEOUT_MS * RETRY_FACTOR)
-    s2.set("random_seed", 7)
-    for a in solver.assertions():
-        s2.add(a)
-    r = s2.check(*extra)
-    STATS["z3_calls"] += 1
-    STATS["z3_time"] += time.time() - t0
-    STATS["z3_retries"] = STATS.get("z3_retries", 0) + 1
-    if r == z3.sat:
-        return "sat", s2.model(), "z3-retry"
-    if r == z3.unsat:
-        return "unsat", None, "z3-retry"
+    # last resort: the same query again in fresh z3 instances with longer budgets -- first with
+    # the default seed (a query that is easy in isolation may just have been starved of CPU),
+    # then with other seeds (z3's nonlinear / string search is not stable across seeds).
+    # Verdicts must not flip to undecided just because all cores are busy.
+    for seed, factor in ((None, RETRY_FACTOR // 2), (7, RETRY_FACTOR // 2), (23, RETRY_FACTOR // 2)):
+        t0 = time.time()
+        s2 = z3.Solver()
+        s2.set("timeout", Z3_TIMEOUT_MS * max(1, factor))
+        if seed is not None:
+            s2.set("random_seed", seed)
+        for a in solver.assertions():
+            s2.add(a)
+        r = s2.check(*extra)
+        STATS["z3_calls"] += 1
+        STATS["z3_time"] += time.time() - t0
+        STATS["z3_retries"] = STATS.get("z3_retries", 0) + 1
+        if r == z3.sat:
+            return "sat", s2.model(), "z3-retry"
+        if r == z3.unsat:
+            return "unsat", None, "z3-retry"
     return "unknown", None, "z3"
 
 
